@@ -7,6 +7,7 @@ def gen_rt(seed, idx):
     kind = idx % 4
     steps = []
     maxms = 0
+    maxto = maxex = 0
     if kind in (0, 1):
         # ms holds and ms waiters on a few keys
         for _ in range(rng.randint(4, 9)):
@@ -14,9 +15,15 @@ def gen_rt(seed, idx):
             r = rng.random()
             if r < 0.6:
                 ex = rng.choice([5, 20, 50, 120, 400, 900]); to = rng.choice([0, 10, 60, 300, 800])
+                if rng.random() < 0.15:
+                    # the length of the millisecond wheel (3000 slots) and its multiples: hand-over to the second ring
+                    ex = rng.choice([2999, 3000, 3001, 6000])
+                elif rng.random() < 0.1:
+                    to = rng.choice([2999, 3000, 3001])
                 steps.append({"op": "lock", "conn": lid, "key": key, "lid": lid, "tf": 0x0400, "ef": 0x0400, "to": to, "ex": ex,
                               "cnt": rng.choice([0, 0, 1]), "nodup": True})
                 maxms = max(maxms, ex + to)
+                maxto, maxex = max(maxto, to), max(maxex, ex)
             elif r < 0.8:
                 steps.append({"op": "unlock", "conn": lid, "key": key, "lid": lid})
             else:
@@ -42,5 +49,6 @@ def gen_rt(seed, idx):
         steps.append({"op": "unlock", "conn": 1, "key": 1, "lid": 1})
         steps.append({"op": "unlock", "conn": 2, "key": 2, "lid": 2})
         return {"name": f"rt-role-{seed}-{idx}", "cfg": {}, "steps": steps, "complete": True}
-    steps.append({"op": "sleep", "n": min(maxms, 3400) + 1300})
+    # a request queued by the last step is granted within its own wait and then holds for its own expiry
+    steps.append({"op": "sleep", "n": max(min(maxms, 3400), maxto + maxex) + 1300})
     return {"name": f"rt-{kind}-{seed}-{idx}", "cfg": {}, "steps": steps, "complete": True}
